@@ -344,6 +344,12 @@ def _directed(ctx, rep):
                             except reader.Broken as e:
                                 rep.violate("C04:a-retained-snapshot-is-unreadable", f"{backend}: {exc.__name__} in the with-body: {e}", case)
                                 continue
+                            if backend == "local":
+                                changed = (v["rows"], len(v["snaps"])) != (pre["rows"], len(pre["snaps"]))
+                                m_ = driver.ask([f"cf.exit {'exception' if exc is RuntimeError else 'interrupt'} 1"])[0]
+                                rep.corr_cases += 1
+                                if m_ != ("commit" if changed else "rollback"):
+                                    rep.diverge("cf.exit (Transaction.__exit__)", case, m_, "commit" if changed else "rollback")
                             if (v["rows"], len(v["snaps"])) != (pre["rows"], len(pre["snaps"])):
                                 rep.violate("C04:interrupted-with-body-committed-a-partial-transaction",
                                             f"{backend}: {exc.__name__} raised inside the with-block (commit() never called, {raised} propagated) yet the table "
@@ -410,6 +416,18 @@ def _directed(ctx, rep):
                         rep.evaluations += 1
                         rep.nontrivial(["c04-reuse", backend, second_fault])
                         case = {"kind": "transaction-reused-after-ambiguous-commit", "backend": backend, "first": out1, "second_fault": second_fault, "second": out2}
+                        if out1 == "AmbiguousCommitError" and out2 not in ("ok", None):
+                            first_files = [f_ for f_ in env.store().list() if "first" in f_] or None
+                            rows_now = None
+                            try:
+                                rows_now = reader.view(env.store())["rows"]
+                            except reader.Broken:
+                                pass
+                            m_ = driver.ask(["cf.reuse ambiguous cleanFailure"])[0]
+                            rep.corr_cases += 1
+                            impl_ = "deleted=2" if rows_now is not None and rows_now == mid["rows"] else "deleted=1,2"
+                            if m_ != impl_:
+                                rep.diverge("cf.reuse (Transaction.begin resets what a rollback may delete)", case, m_, impl_)
                         try:
                             v = reader.view(env.store())
                             if out2 != "ok" and v["rows"] != mid["rows"]:
